@@ -6,8 +6,50 @@ translated dispatcher.  A changed branch condition, key, gate, order or answer i
 definition and these proofs stop checking.
 -/
 import PrimaiteModel.Props.C17
+import PrimaiteModel.Gen.DatabaseTr
 namespace Primaite.Database
 open Primaite.Gen
+
+/-! ## 9. The translated source equals the model (`Gen/DatabaseTr.lean`, harness/extract/database_tr.py)
+
+`_process_sql`, `_process_connect` and `IOSoftware.add_connection` are translated statement by statement from the source on
+every run; the theorems below prove the translated functions equal to the hand-written model for every server state and
+every argument.  A changed guard, operator, status code, branch order or written value in the source changes the generated
+definition and these proofs stop checking. -/
+
+set_option linter.unusedSimpArgs false in
+/-- `_process_sql` as translated = the model's `processSql`, and an answer carries the query's uuid (which is what the
+client counts as success) exactly when its status is 200. -/
+theorem C17_tr_process_sql (s : Server) (q : Sql) :
+    ((DatabaseTr.processSql s q).1, (DatabaseTr.processSql s q).2.1) = processSql s q ∧
+    (DatabaseTr.processSql s q).2.2 = ((DatabaseTr.processSql s q).2.1 == 200) := by
+  unfold DatabaseTr.processSql processSql
+  cases hf : s.file with
+  | none => simp
+  | some fh =>
+    by_cases hh : s.health = .good
+    · cases q <;> cases fh <;> simp [hh]
+    · simp [hh]
+
+set_option linter.unusedSimpArgs false in
+/-- `_process_connect` (with `add_connection` inlined) as translated = the model's `processConnect`, for every server
+state in which the id about to be issued is not in the table (uuid4 freshness; `C17_tr_fresh_of_wf`); the id is visible
+to the client only when `response` is true, and `response` is `status_code == 200`. -/
+theorem C17_tr_process_connect (s : Server) (owner : Nat) (pw : Option Nat) (hfresh : s.hasConn s.nextId = false) :
+    ((DatabaseTr.processConnect s owner pw).1, (DatabaseTr.processConnect s owner pw).2.1,
+      if (DatabaseTr.processConnect s owner pw).2.2.1 then (DatabaseTr.processConnect s owner pw).2.2.2 else none)
+      = processConnect s owner pw ∧
+    (DatabaseTr.processConnect s owner pw).2.2.1 = ((DatabaseTr.processConnect s owner pw).2.1 == 200) := by
+  unfold DatabaseTr.processConnect DatabaseTr.addConnection processConnect healthAcceptsConnect
+  have hfresh' : Server.hasConn { s with nextId := s.nextId + 1 } s.nextId = false := hfresh
+  by_cases h1 : s.op = .running
+  · by_cases h3 : s.password = pw
+    · by_cases h4 : s.maxSessions ≤ s.conns.length
+      · cases hh : s.health <;> simp [h1, h3, h4, hh]
+      · cases hh : s.health <;> simp [h1, h3, h4, hh, hfresh', Server.hasConn] <;> simp_all [Server.hasConn]
+    · cases hh : s.health <;> simp [h1, h3, hh]
+  · simp [h1]
+
 
 /-- `terminate_connection(id, send_disconnect=False)` as translated: the entries with that id are removed, nothing else. -/
 theorem C17_tr_terminate (s : Server) (cid : Option Nat) :
